@@ -265,7 +265,7 @@ def _call_guarded(args):
         return ("ok", fn(item))
     except HarnessError as e:
         return ("harness", f"{e}\n{traceback.format_exc()}")
-    except Exception as e:  # a bug in a check must never look like a pass
+    except BaseException as e:  # a bug in a check must never look like a pass - and never kill a pool worker (the pool would wait forever)
         return ("harness", f"{type(e).__name__}: {e}\n{traceback.format_exc()}")
 
 
